@@ -179,6 +179,7 @@ def gen_world(rng, profile=None):
     w.next_req = 0
     w.fleets = fleets
     w.instr_weights = profile.get('instr_weights')
+    w.charger_pool = profile.get('charger_pool')
     for g in geoids:
         w.it.g(g)
     return w
@@ -218,7 +219,7 @@ def gen_instruction(rng, w, v, valid_p=0.7, uniform=False):
             ok = [c for c, cs in st.state.items() if mech.valid_charger(cs.charger)]
             if ok:
                 return rng.choice(sorted(ok))
-        return rng.choice(CHARGER_IDS)
+        return rng.choice(getattr(w, 'charger_pool', None) or CHARGER_IDS)
     if kind == 'idle':
         return I.IdleInstruction(v.id)
     if kind == 'oos':
